@@ -563,8 +563,10 @@ class DecoderLayout:
                     continue
                 e = u["e"]
                 kind = u["kind"]
-                if others and is_alias(u):
-                    continue        # `let chunk = read [as uN]`: an alias of the whole group, not a use of its bits
+                if is_alias(u):
+                    # `let chunk = read [as uN]`: an alias of the whole group, not a use of its bits (with no other use
+                    # the group is read and dropped: a group made only of several reserved fields)
+                    continue
                 role = self.roles.get(e.key()) or self.roles.get(_strip_cast(e).key())
                 if kind == "fixed":
                     v = u.get("value")
